@@ -1270,6 +1270,14 @@ class Context:
         vm.globals = self._globals
         if self._current_vm is not None:
             vm.start_time = self._current_vm.start_time
+            # Every nested start polls the clock: work made of many short nested
+            # runs never reaches the per-VM polling interval
+            if (
+                vm.time_limit is not None
+                and vm.start_time is not None
+                and time.monotonic() - vm.start_time > vm.time_limit
+            ):
+                raise TimeLimitError("Execution timeout")
             # Nested code recurses on the host stack like a callback does
             self._current_vm._enter_native()
             self._current_vm.native_depth -= 1
